@@ -14,11 +14,11 @@ import (
 
 // Plan is one simulated run: client tasks with their operation lists plus the schedule.
 type Plan struct {
-	NCtx  int           `json:"nctx"`
-	Tasks [][]Op        `json:"tasks"`
-	Pre   []Op          `json:"pre,omitempty"` // executed sequentially before the tasks start (Arm, SetEnv)
-	Multi bool          `json:"multi,omitempty"` // every task constructs and uses a container of its own, inside the scheduled phase
-	Sched sched.Config  `json:"sched"`
+	NCtx  int          `json:"nctx"`
+	Tasks [][]Op       `json:"tasks"`
+	Pre   []Op         `json:"pre,omitempty"`   // executed sequentially before the tasks start (Arm, SetEnv)
+	Multi bool         `json:"multi,omitempty"` // every task constructs and uses a container of its own, inside the scheduled phase
+	Sched sched.Config `json:"sched"`
 }
 
 // LastRunDigest fingerprints the last executed run (decision trace, outcome, history with results):
